@@ -340,6 +340,13 @@ class Interp:
                         "In": lambda: a in b, "NotIn": lambda: a not in b}[op]()
             except Exception:
                 return ("cmp", op, a, b)
+        boolish = lambda x: isinstance(x, tuple) and x and x[0] in ("cmp", "not", "and", "or")
+        if op in ("Eq", "NotEq", "Is", "IsNot") and isinstance(b, bool) and boolish(a):
+            pos = (op in ("Eq", "Is")) == b
+            return a if pos else self.neg(a)
+        if op in ("Eq", "NotEq", "Is", "IsNot") and isinstance(a, bool) and boolish(b):
+            pos = (op in ("Eq", "Is")) == a
+            return b if pos else self.neg(b)
         if op in ("Lt", "LtE", "Gt", "GtE", "Eq", "NotEq") and (is_lin(a) or intish(a)) and (is_lin(b) or intish(b)):
             d = add(a, b, -1)
             if is_int(d):
